@@ -111,6 +111,10 @@ fn base_shape(n: usize, name_mode: usize, fds: usize) -> Shape {
     s
 }
 
+pub fn shape_n3() -> Shape {
+    base_shape(3, 2, 2)
+}
+
 pub struct Res {
     pub case: Value,
     pub errors: Vec<String>,
